@@ -266,6 +266,12 @@ type BFSOpts struct {
 	// at that state) to check bounded liveness; it may apply further events.
 	Drain func(s Sys, hist []string) error
 	StopOnViolation bool
+	// HangTimeout (real time) and OnHang: if replaying one history plus one event does not
+	// come back within HangTimeout the code under test is spinning or blocked outside the
+	// harness's control (operations take micro- to milliseconds; the default is 180 s). The
+	// stuck goroutine cannot be stopped, so OnHang is expected to report and exit the process.
+	HangTimeout time.Duration
+	OnHang      func(hist []string, ev string)
 }
 
 // BFSStats is what a BFS run covered.
@@ -319,7 +325,15 @@ func BFS(opts BFSOpts, newSys func() Sys, onViolation func(hist []string, err er
 		enabled []string
 		err     error
 	}
+	hangAfter := opts.HangTimeout
+	if hangAfter == 0 {
+		hangAfter = 180 * time.Second
+	}
 	expand := func(hist []string, ev string, withDrain bool) (r res, isNew bool) {
+		if opts.OnHang != nil {
+			tm := time.AfterFunc(hangAfter, func() { opts.OnHang(append([]string(nil), hist...), ev) })
+			defer tm.Stop()
+		}
 		run(func() {
 			s := newSys()
 			defer s.Close()
